@@ -52,7 +52,7 @@ static void reset_ghost(struct File *f)
     vb_file = f; vb_exc = 0;
     g_drop_calls = g_push_calls = g_delete_calls = g_writeLC_calls = g_next_calls = g_encode_calls = 0;
     g_compress_calls = g_lcwrite_calls = g_lcdtor = g_eos_queue = g_eos_stream = g_stats_written = g_seekp_calls = g_closed = g_abort_q = g_abort_u = 0;
-    g_pushed = g_deleted = g_created = g_dequeued = 0; g_sig_pos = -1;
+    g_pushed = g_deleted = g_created = g_dequeued = 0; g_sig_pos = -1; g_lcread_calls = 0; g_hdr_bad = 0;
 }
 #define U (f.m_uncompressedFile)
 #define Q (f.m_readWriteQueue)
@@ -136,6 +136,7 @@ def all_jobs(info):
 '''
     asr = [
         ('C08/File/compressedFile2UncompressedFile/appends-one-complete-container-or-raises-without-appending', '(vb_exc == 0 && g_writeLC_calls == 1) || (vb_exc != 0 && g_writeLC_calls == 0 && U.m_tellp == p0)'),
+        ('C08/File/compressedFile2UncompressedFile/a-cut-short-container-header-ends-the-transfer-with-the-library-exception-before-anything-is-decoded', '!g_hdr_bad || (vb_exc != 0 && g_lcread_calls == 0 && g_writeLC_calls == 0)'),
         ('C08/File/compressedFile2UncompressedFile/a-container-is-appended-only-if-it-was-read-completely', 'g_writeLC_calls == 0 || C.cstate == 0'),
         ('C05/File/compressedFile2UncompressedFile/size-counter-grows-by-container-header-plus-payload-of-the-appended-container', 'g_writeLC_calls == 0 || g_lc_usize > 0xffffffdfu || f.currentUncompressedFileSize == cur0 + 32 + (uint64_t)g_lc_usize'),
         ('C08/File/compressedFile2UncompressedFile/the-stream-grows-by-exactly-the-declared-payload', 'g_writeLC_calls == 0 || U.m_tellp == p0 + (int64_t)g_lc_usize'),
@@ -255,7 +256,7 @@ void File_uncompressedFileWriteThread(struct File *f) {} void File_compressedFil
     File_open__char_std__ios_base__openmode(&f, name, mode);
 '''
     asr = [
-        ('C13/File/open/no-op-when-already-open', '!was_open || (f.m_uncompressedFileThread.started == 0 && g_stats_written == 0 && f.currentUncompressedFileSize == f0.currentUncompressedFileSize)'),
+        ('C13/File/open/no-op-when-already-open-(the-session-keeps-its-mode)', '!was_open || (f.m_uncompressedFileThread.started == 0 && g_stats_written == 0 && f.currentUncompressedFileSize == f0.currentUncompressedFileSize && f.m_openMode == f0.m_openMode && C.copen)'),
         ('C13/File/open/stays-closed-and-starts-nothing-when-the-file-cannot-be-opened', 'was_open || C.copen || (f.m_uncompressedFileThread.started == 0 && f.m_compressedFileThread.started == 0 && g_stats_written == 0)'),
         ('C13/File/open/a-successful-open-starts-both-workers-exactly-when-a-mode-is-given', 'was_open || !C.copen || vb_exc != 0 || ((mode & (IOS_in | IOS_out)) ? (f.m_uncompressedFileThread.started == 1 && f.m_compressedFileThread.started == 1 && f.m_uncompressedFileThreadRunning && f.m_compressedFileThreadRunning) : (f.m_uncompressedFileThread.started == 0))'),
         ('C05/File/open/size-counter-starts-with-the-144-byte-header-of-a-written-file', 'was_open || !C.copen || vb_exc != 0 || (mode & IOS_in) || !(mode & IOS_out) || (f.currentUncompressedFileSize == f0.currentUncompressedFileSize + 144 && g_stats_written == 1)'),
